@@ -318,6 +318,13 @@ func VerifC11_LiquidateStep() {
 
 	start := zz.AnyInt64In("acc.start", 0, c11MaxStart)
 	lockup := c11Periods("acc.p", n, "aISLM")
+	other := zz.ParamInt("otherDenom", 0) == 1
+	if other {
+		// the grant also vests a second denomination (only aISLM can be liquidated; the rest of the account must be left alone)
+		for i := range lockup {
+			lockup[i].Amount = lockup[i].Amount.Add(sdk.NewCoin("afoo", zz.AnyAmount("acc.p"+string(rune('0'+i))+".afoo", 100)))
+		}
+	}
 	ov := lockup.TotalAmount()
 	vest := sdkvesting.Periods{{Length: 0, Amount: ov}} // everything vested at start: nothing unvested, as Liquidate requires
 	ch := common.Hash{}
@@ -379,6 +386,12 @@ func VerifC11_LiquidateStep() {
 		zz.Assert(av.OriginalVesting.AmountOf("aISLM").Equal(ov.AmountOf("aISLM").Sub(amount)), "original vesting reduced by the liquidated amount")
 		zz.Assert(av.LockupPeriods.TotalAmount().AmountOf("aISLM").Equal(av.OriginalVesting.AmountOf("aISLM")), "remaining lockup schedule sums to the remaining grant")
 		zz.Assert(av.VestingPeriods.TotalAmount().AmountOf("aISLM").Equal(av.OriginalVesting.AmountOf("aISLM")), "remaining vesting schedule sums to the remaining grant")
+		if other {
+			zz.Assert(av.OriginalVesting.AmountOf("afoo").Equal(ov.AmountOf("afoo")), "a liquidation leaves the other denominations of the grant as they were")
+			zz.Assert(av.LockupPeriods.TotalAmount().AmountOf("afoo").Equal(ov.AmountOf("afoo")) && av.VestingPeriods.TotalAmount().AmountOf("afoo").Equal(ov.AmountOf("afoo")),
+				"a liquidation leaves the other denominations of both schedules as they were")
+			zz.Assert(av.Validate() == nil, "the account a liquidation leaves behind is valid")
+		}
 	} else {
 		zz.Assert(false, "the account stays a clawback vesting account")
 	}
